@@ -288,6 +288,7 @@ type outcome struct {
 	connOut  []byte
 	connShut bool
 	grpcSt   string
+	body     []byte
 	calls    int
 	spins    int
 	recvs    int
@@ -329,12 +330,30 @@ func serveInproc(c *Case, bt *built) *outcome {
 		}
 		o.panicked = resp.Panic
 		o.code = resp.Code
+		o.body = resp.Body
 		if code, _, _, ok := resp.GRPCStatus(); ok {
 			o.grpcSt = strconv.Itoa(code)
 		}
 	}
 	o.calls, o.spins, o.recvs = bt.b.snapshot()
 	o.recvCap = bt.b.recvCap()
+	return o
+}
+
+// serveOnly serves a plain request on a mux shared with other goroutines: the
+// behaviour record is neither reset nor read.
+func serveOnly(c *Case, bt *built) *outcome {
+	o := &outcome{recvCap: spinCap}
+	var gid atomic.Int64
+	req := c.request()
+	resp := wire.Serve(gidHandler{bt.mux, &gid}, req)
+	o.gid = gid.Load()
+	if resp.Wedged {
+		o.wedged, o.dump = true, resp.Dump
+		return o
+	}
+	req.Body.Close()
+	o.panicked, o.code, o.body = resp.Panic, resp.Code, resp.Body
 	return o
 }
 
@@ -775,7 +794,7 @@ func sampleOf(c *Case) any {
 	return s
 }
 
-const ruleText = "requests = grammar-aware mutations of valid requests (plus raw bytes) built for every endpoint of (a) the testpb services registered with their generated Register*Server functions, (b) the standard harness service, (c) generated rule sets (multi-segment ** variables, typed variables, nested fields, variables / body / response_body selectors on scalar, repeated, map and message fields, websocket rules with and without body) and hand-written hostile sets; mutations cover paths (near misses, token soup, 63/64/65 tokens, invalid UTF-8, huge segments), query keys walking the schema, header tables, header-value grammar (valid media-range / coding / token lists with every separator, control and non-ASCII byte, comments, quoted strings, unbalanced quotes and empty elements inserted at every lexical gap: random edits everywhere plus an exhaustive sweep over succeeding, handler-failing and route-failing requests of every entry), bodies (JSON junk, deep JSON, invalid protobuf, varint prefixes of 1-11 bytes, broken gzip, gRPC frames with lying length / flag fields, 0-4-byte messages, broken base64, hostile WebSocket frames) and the status the handler returns (any code incl. 17 and out-of-range, hostile messages, details, headers, trailers). Entries: http, grpc (ProtoMajor 2), grpc-web, grpc-web-text, WebSocket upgrade on a plain recorder, on a hijackable in-memory connection and on a real listener, HTTP/1 and h2c on a real listener (server built by larking.NewServer); every mask of {unary interceptor, stream interceptor, stats handler} plus small limits and an extra codec. Further lanes: muxes in other life-cycle states (brand new, only registration rejected, only connection dropped, registered connection whose refresh with changed descriptors was refused, service served by two connections of which one was replaced by a third after traffic) receiving valid and hostile requests of every entry under all 8 masks; on the WebSocket path a sweep of lengths 1..200 of everything that ends up in an error message (handler message in 1..4-byte runes, unknown JSON field name, echoed path variable / message field), every upgraded exchange having to end with well-formed frames and a well-formed close frame; compressed messages (gRPC, gRPC-web, gRPC-web-text frames and gzip HTTP bodies) whose decompressed size is swept over limit-3..limit+3 for 64-byte, 1024-byte and the default 4 MiB receive limits; clients that keep their sending side open (gRPC / gRPC-web client-streaming calls whose body blocks until the server closes it, with handlers that return without reading, after one message, or while a Recv is pending in another goroutine, local and proxied; WebSocket clients that send exactly the request of a unary / server-streaming method and then only read): the call must still end; bursts of 16 goroutines serving gzip-compressed requests concurrently on one mux (pooled state), and the standard service proxied to a real grpc-go back-end through RegisterConn. Oracle: recover(), 20 s watchdog with goroutine dump, valid HTTP status, 'panic serving' in the server log, handlers' receive counter against the request size. distinct = (entry, target kind, option mask, first two mutation classes, outcome class)"
+const ruleText = "requests = grammar-aware mutations of valid requests (plus raw bytes) built for every endpoint of (a) the testpb services registered with their generated Register*Server functions, (b) the standard harness service, (c) generated rule sets (multi-segment ** variables, typed variables, nested fields, variables / body / response_body selectors on scalar, repeated, map and message fields, websocket rules with and without body) and hand-written hostile sets; mutations cover paths (near misses, token soup, 63/64/65 tokens, invalid UTF-8, huge segments), query keys walking the schema, header tables, header-value grammar (valid media-range / coding / token lists with every separator, control and non-ASCII byte, comments, quoted strings, unbalanced quotes and empty elements inserted at every lexical gap: random edits everywhere plus an exhaustive sweep over succeeding, handler-failing and route-failing requests of every entry), bodies (JSON junk, deep JSON, invalid protobuf, varint prefixes of 1-11 bytes, broken gzip, gRPC frames with lying length / flag fields, 0-4-byte messages, broken base64, hostile WebSocket frames) and the status the handler returns (any code incl. 17 and out-of-range, hostile messages, details, headers, trailers). Entries: http, grpc (ProtoMajor 2), grpc-web, grpc-web-text, WebSocket upgrade on a plain recorder, on a hijackable in-memory connection and on a real listener, HTTP/1 and h2c on a real listener (server built by larking.NewServer); every mask of {unary interceptor, stream interceptor, stats handler} plus small limits and an extra codec. Further lanes: muxes in other life-cycle states (brand new, only registration rejected, only connection dropped, registered connection whose refresh with changed descriptors was refused, service served by two connections of which one was replaced by a third after traffic) receiving valid and hostile requests of every entry under all 8 masks; on the WebSocket path a sweep of lengths 1..200 of everything that ends up in an error message (handler message in 1..4-byte runes, unknown JSON field name, echoed path variable / message field), every upgraded exchange having to end with well-formed frames and a well-formed close frame; hand-built WebSocket control-frame headers (ping / pong / close announcing 126 .. 2^63-1 bytes in 16- and 64-bit length forms, FIN 0/1, before the first data frame, after an echo round trip, between fragments, with and without payload behind them); as the very last lane, 8 goroutines sending requests whose Content-Type / Accept spellings are all different (parameters, case, white space; JSON, protobuf, Twirp), each answer compared with its sequential twin on a private mux; compressed messages (gRPC, gRPC-web, gRPC-web-text frames and gzip HTTP bodies) whose decompressed size is swept over limit-3..limit+3 for 64-byte, 1024-byte and the default 4 MiB receive limits; clients that keep their sending side open (gRPC / gRPC-web client-streaming calls whose body blocks until the server closes it, with handlers that return without reading, after one message, or while a Recv is pending in another goroutine, local and proxied; WebSocket clients that send exactly the request of a unary / server-streaming method and then only read): the call must still end; bursts of 16 goroutines serving gzip-compressed requests concurrently on one mux (pooled state), and the standard service proxied to a real grpc-go back-end through RegisterConn. Oracle: recover(), 20 s watchdog with goroutine dump, valid HTTP status, 'panic serving' in the server log, handlers' receive counter against the request size. distinct = (entry, target kind, option mask, first two mutation classes, outcome class)"
 
 // RunC09 is the robustness check.
 func RunC09(r *mon.Run) {
@@ -808,6 +827,9 @@ func RunC09(r *mon.Run) {
 	if phase == "" || phase == "inproc" || phase == "hold" {
 		runHoldLane(r)
 	}
+	if phase == "" || phase == "inproc" || phase == "ctl" {
+		runControlFrames(r)
+	}
 	if phase == "" || phase == "inproc" || phase == "limit" {
 		runLimitSweep(r)
 	}
@@ -825,6 +847,11 @@ func RunC09(r *mon.Run) {
 	t2 := time.Now()
 	if phase == "" || phase == "proxy" {
 		runProxied(r)
+	}
+	// last: on a tree that writes shared state per request this lane kills
+	// the process (fatal error, reported by bin/check from the crash log)
+	if phase == "" || phase == "spell" {
+		runSpellings(r)
 	}
 	r.Set("phase_seconds", map[string]float64{"in_process": t1.Sub(t0).Seconds(), "real_listeners": t2.Sub(t1).Seconds(), "proxied": time.Since(t2).Seconds()})
 	r.Assume("handlers are the harness's own (status, headers and replies chosen by the X-Vf-Act request header); a panic raised by harness code would be keyed by its own frame and is a harness bug")
